@@ -18,7 +18,8 @@ import lib
 
 LEVEL = "exploration"
 ASSUME = [
-    "X25519 and AES-GCM are trusted: without the keys no other box opens (symbolic crypto in the spec); public keys other than the client's encoding and its bit-255 twin that give the same secret (non-canonical u >= 2^255-19) occur with probability 2^-250 and are not constructed",
+    "X25519 and AES-GCM are trusted: without the keys no other box opens (symbolic crypto in the spec) EXCEPT under the degenerate all-zero secret of the small-order points, which is modelled (tamper class loworder) and constructed (7 encodings x bit 255, both transports); other public keys that give the client's secret (non-canonical u >= 2^255-19 of ordinary points) occur with probability 2^-250 and are not constructed",
+    "user histories: a database user authorised at its first connection and revoked since (deleted / expired / UpCredit 0 / DownCredit 0) - or not (control) - reconnects with a NEW session id while its record is cached session-less (closing goroutine parked at hook user.closesession.unlocked) or with the first session still up; revoked => no handshake reply (relay or no answer), control => reply; a connection that joins an EXISTING session id of a cached record is not re-authorised by the code and is not demanded (C16)",
     "the window is read on the sealed whole-second timestamp against State.WorldState.Now: |stamp - now| < 180 s, concretised as 0, +-1 s, +-60 s, +-179 s, +-(180 s - 1 ns) inside; +-180 s (edge); +-(180 s + 1 ns), +-181 s, +-360 s, +-24 h outside",
     "user states are seeded in a real bolt database (ok, UpCredit 0, DownCredit 0, expired 1000 s ago, expired in 1970, absent) or the bypass / admin configuration; a user that is already active is not re-authenticated (C16's subject): every presentation starts from a panel without that user's session unless a previous dispatch goroutine never returned (purged)",
     "an admin session (admin UID, session id 0) carries no proxy traffic: the 'method it serves' clause is applied to proxy sessions only (dispatcher.go tests the admin gate before the ProxyBook); the occurrences are counted in harness_stats obs:admin_api_with_unserved_method and become a violation with VERIF_C07_STRICT_ADMIN_METHOD=1",
@@ -26,7 +27,8 @@ ASSUME = [
     "a packet whose own framing announces more bytes than it has is completed by the harness (zero padding up to the TLS record length / an empty line) so that the server's 15 s first-read timer is not part of a case",
 ]
 
-SOUND_DEVS = ["WindowInclusive", "NoTimestampCheck", "IgnoreDecryptError", "SkipMethodCheck", "SkipUidCheck", "AdminNoSid"]
+SOUND_DEVS = ["WindowInclusive", "NoTimestampCheck", "IgnoreDecryptError", "SkipMethodCheck", "SkipUidCheck", "AdminNoSid",
+              "LowOrderAccepted", "SkipRecheckSessionless"]
 JVM = {"JAVA_TOOL_OPTIONS": "-Xss64m -XX:ParallelGCThreads=2 -XX:TieredStopAtLevel=1"}
 INV = "Agreement KeyAgreement Soundness AdminGate AdminReach"
 
@@ -38,7 +40,7 @@ def _sub(scope, maxt, dev="{{}}", inv=INV, w=2):
 def neg_matrix(ctx, flags):
     """One TLC run in which every behaviour carries one deviation flag; returns {flag: set(invariants it breaks)}."""
     dev = "{" + ",".join('{"%s"}' % f for f in flags) + "}"
-    r = lib.run_tlc(ctx, "HandshakeNeg", "HandshakeNeg.cfg", _sub("neg", 0, dev), tag="neg_matrix", workers=1, timeout=900, env=JVM)
+    r = lib.run_tlc(ctx, "HandshakeNeg", "HandshakeNeg.cfg", _sub("neg", 1, dev), tag="neg_matrix", workers=1, timeout=900, env=JVM)
     lib.require_ok(r, "neg_matrix")
     m = re.search(r'<<"NEGMATRIX", (".*")>>', r.out)
     if not m:
@@ -102,6 +104,8 @@ def run(ctx):
     ctx.log("replay: %d real clients, %d single-bit flips, %d multi-byte edits, %d environment presentations on %d base packets; %.1fs" % (
         sum(v for k, v in gs.items() if k.startswith("clients:")), gs.get("single_bit_flips", 0), gs.get("multi_byte_edits", 0),
         gs.get("environment_presentations", 0), gs.get("base_packets", 0), gs.get("replay_wall_ms", 0) / 1000.0))
+    ctx.log("small-order forgeries: %d; histories: %s" % (gs.get("small_order_forgeries", 0),
+                                                          {k[16:]: v for k, v in sorted(gs.items()) if k.startswith("history_outcome:")}))
     ctx.log("outcomes: %s" % {k: v for k, v in sorted(gs.items()) if k.startswith("outcome:") or k.startswith("client_outcome:")})
     ctx.log("lenient classes accepted: %s; admin API reached %d times (with unserved method: %d); stuck dispatch: %s" % (
         {k[17:]: v for k, v in sorted(gs.items()) if k.startswith("lenient_accepted:")}, gs.get("admin_api_reached", 0),
@@ -121,9 +125,10 @@ def run(ctx):
     cov = {
         "evaluations": g["evaluations"],
         "distinct_nontrivial": g["distinct_nontrivial"],
-        "rule": "abstract cases = every wire state of Handshake (Scope=sound): {direct, cdn} x subsets of <= %d of the 7 tamper classes per transport "
-                "(randsig, nonce, bit255, blockA, blockB, other, len|b64) x stamp offset -3..3 ticks (W=2) x user state {bypass, admin, dbok, nocredit, expired, unknown} "
-                "x method {served, unserved} x sid {0, non-0} x server key {right, wrong}; concrete: (A) every untampered case as real clients (3 signatures, %s draws), "
+        "rule": "abstract cases = every wire state of Handshake (Scope=sound): {direct, cdn} x subsets of <= %d of the 8 tamper classes per transport "
+                "(randsig, nonce, bit255, blockA, blockB, other, loworder, len|b64) x stamp offset -3..3 ticks (W=2) x user state {bypass, admin, dbok, nocredit, expired, unknown} "
+                "x method {served, unserved} x sid {0, non-0} x server key {right, wrong}, plus user histories {still ok, nocredit, expired, deleted} x cached record {session-less, busy}; concrete: (C) every history x "
+                "4 transport/signature combinations as gate scenarios on the real panel, (B1/B2 also) forged packets for all 7 small-order points x bit 255 sealed under the zero secret,  (A) every untampered case as real clients (3 signatures, %s draws), "
                 "(B1) per transport/signature %s: every bit of record/handshake header, version, random, session id, key share (+headers), extensions length resp. "
                 "hidden name/value, request line, terminator%s, + %s random multi-byte edits; (B2) every untampered environment x every offset class x "
                 "(no edit, %s per class%s); non-trivial = tampered or excluded by the statement; distinct = distinct abstract cases hit" % (
@@ -134,7 +139,7 @@ def run(ctx):
         "abstract_cases_in_table": len(table),
         "verdict_classes": by,
         "exhaustive": True,
-        "checker_cmd": "tlc Handshake.tla / HandshakeNeg.tla (6 deviation flags) / HandshakeGen.tla (Scope=sound) + go test -run TestVerifC07Replay",
+        "checker_cmd": "tlc Handshake.tla / HandshakeNeg.tla (8 deviation flags) / HandshakeGen.tla (Scope=sound) + go test -run TestVerifC07Replay",
         "harness_stats": gs,
     }
     return lib.finish(ctx, LEVEL, cov, ASSUME)
